@@ -187,3 +187,26 @@ def strongin():
     f = evaluator(p, FunctionType.OBJECTIV, 0)
     gs = [(evaluator(p, FunctionType.CONSTRAINT, j), (lambda a, b, L=Lg[j]: L)) for j in range(3)]
     return p, f, (lambda a, b: Lf), gs, dict(L=Lf, Lg=Lg)
+
+
+class Second1D:
+    """1-D second-order cell bound: f(x) >= f(c) - (|f'(c)| + F2 h) rad - F2 rad^2 / 2, f'(c) by central differences of the
+    repository's Calculate; the first-order bound with the (cell-local) Lipschitz constant is used when it is better."""
+
+    def __init__(self, f, Lfun, F2, h=1e-6, sign=1.0):
+        self.f, self.Lfun, self.F2, self.h, self.sign = f, Lfun, F2, h, sign
+        self.extra_evals = 0
+
+    def __call__(self, a, b):
+        return self.Lfun(a, b)
+
+    def low(self, a, b, c, v, rad):
+        first = v - self.Lfun(a, b) * rad
+        h = min(self.h, 0.25 * rad) if rad > 0 else self.h
+        if h <= 0:
+            return first
+        e = np.array([h])
+        g = (self.f(c + e) - self.f(c - e)) / (2 * h)
+        self.extra_evals += 2
+        second = v - (abs(g) + self.F2 * h) * rad - 0.5 * self.F2 * rad * rad
+        return max(first, second)
